@@ -274,3 +274,133 @@ Theorem C08_generated_valid_boundary_is_model :
     gen_valid_boundary (PBytes b) = Py.Ok (PBool (valid_boundary b)).
 Proof. exact gen_valid_boundary_eq. Qed.
 Print Assumptions C08_generated_valid_boundary_is_model.
+
+(* ---- translator tie of the part loop: harness/py2v_multi.py ->
+   gen/MultiGen.v (FieldStorageParser._skip_to_boundary, read_multi,
+   skip_lines) over lib/PyMulti.v *)
+Require Import PW.lib.PyMulti PW.gen.MultiGen PW.proofs.MultiGenEq.
+
+(* FieldStorageParser._skip_to_boundary (valid_boundary test -> ValueError,
+   first readline(), the isinstance(bytes) test, bytes_read accounting, the
+   `while first_line.strip() != b"--" + innerboundary and first_line` loop)
+   = the valid_boundary test of the model's read_multi followed by the
+   model's skip_to_boundary, for every reader, input state, boundary,
+   starting count and fuel.  The first readline() stands outside the Python
+   loop: [fuel] rounds of the loop are [S fuel] rounds of the model. *)
+Theorem C08_generated_skip_to_boundary_is_model :
+  forall (St : Type) (rl : Z -> St -> bytes * St) (ib : bytes) (B0 : Z)
+         (fuel : nat) (s : St),
+    gen_skip_to_boundary St rl (PBytes ib) s (PInt B0) fuel
+    = if negb (valid_boundary ib) then value_error
+      else inj_skip St (skip_to_boundary St rl (S fuel) (dashb ib) B0 s).
+Proof. exact gen_skip_to_boundary_eq. Qed.
+Print Assumptions C08_generated_skip_to_boundary_is_model.
+
+(* the inner while of read_multi (`data = self.input.readline();
+   hdr_text += data; if not data.strip(): break`) = the model's read_hdr, for
+   every reader, input state, accumulated text and fuel (OutOfFuel on both
+   sides for the same fuel); [hdr_view] forgets the loop's other carried
+   variable, the last line read *)
+Theorem C08_generated_read_hdr_is_model :
+  forall (St : Type) (rl : Z -> St -> bytes * St) (fuel : nat) (a : pv)
+         (acc : bytes) (s : St),
+    hdr_view St (gen_read_multi_loop_1_1 St rl fuel a (PBytes acc) s)
+    = inj_hdr St (read_hdr St rl fuel acc s).
+Proof. exact gen_read_hdr_eq. Qed.
+Print Assumptions C08_generated_read_hdr_is_model.
+
+(* the `while True` of read_multi (FeedParser feed/close on the decoded
+   header text, `del headers['content-length']`, the limit arithmetic
+   `None if self.limit is None else self.limit - self.bytes_read`, the
+   sub-parser's constructor arguments by parameter name, the
+   max_num_fields accounting and its ValueError, `self.bytes_read +=
+   field_parser.bytes_read`, `_list.append(part)`, the exit test
+   `field_parser.done or self.bytes_read >= self.length > 0`, the final
+   skip_lines() of a parser without outer boundary) = the model's
+   part_loop.  Primitives: the reader [rl], FeedParser ([FPm] =
+   part_headers) and the sub-parser [PARSE], of which is assumed that, called
+   with exactly these arguments, it does what the model's parse_part says.
+   [part_loop_x] is the model's loop with the two further things the Python
+   loop carries (max_num_fields, the returned self.bytes_read). *)
+Theorem C08_generated_part_loop_is_model :
+  forall (St : Type) (rl : Z -> St -> bytes * St)
+         (PARSE : nat -> pv -> St -> res (pv * pv * pv * St))
+         (ib : bytes) (limit : option Z) (length : Z)
+         (m0 enc errs kbv sp sep cb d0 : pv) (fuel0 : nat),
+    (forall hdrs plimit mnf s,
+        PARSE fuel0
+          (PTuple [enc_hdrs hdrs; PBytes ib; kbv; sp; inj_lim plimit; enc;
+                   errs; inj_lim mnf; sep; cb]) s
+        = inj_out (inj_part St)
+            (parse_part St rl 65536 fuel0 hdrs ib plimit s)) ->
+    forall (fuel : nat) (br : Z) (acc : list field) (s : St)
+           (a1 a2 a3 a4 a5 a6 a7 : pv),
+      list_view St
+        (gen_read_multi_loop_1 St rl utf8_decode FPm PARSE fuel0 fuel
+           (PBytes ib) m0 enc errs (inj_lim limit) kbv sp sep cb (PInt length)
+           (PBytes []) d0 a1 a2 a3 (PInt br) a4 a5 a6 a7 PNone
+           (PList (map enc_field acc)) s)
+      = inj_out (inj_fields St)
+          (part_loop St rl 65536 fuel fuel0 ib limit length br acc s).
+Proof. exact gen_part_loop_eq. Qed.
+Print Assumptions C08_generated_part_loop_is_model.
+
+(* ... and with a field limit: the extended loop *)
+Theorem C08_generated_part_loop_max_num_fields :
+  forall (St : Type) (rl : Z -> St -> bytes * St)
+         (PARSE : nat -> pv -> St -> res (pv * pv * pv * St))
+         (ib : bytes) (limit : option Z) (length : Z)
+         (m0 enc errs kbv sp sep cb d0 : pv) (fuel0 : nat),
+    (forall hdrs plimit mnf s,
+        PARSE fuel0
+          (PTuple [enc_hdrs hdrs; PBytes ib; kbv; sp; inj_lim plimit; enc;
+                   errs; inj_lim mnf; sep; cb]) s
+        = inj_out (inj_part St)
+            (parse_part St rl 65536 fuel0 hdrs ib plimit s)) ->
+    forall (fuel : nat) (br : Z) (mnf : option Z) (acc : list field) (s : St)
+           (a1 a2 a3 a4 a5 a6 a7 : pv),
+      gen_read_multi_loop_1 St rl utf8_decode FPm PARSE fuel0 fuel
+        (PBytes ib) m0 enc errs (inj_lim limit) kbv sp sep cb (PInt length)
+        (PBytes []) d0 a1 a2 a3 (PInt br) a4 a5 a6 a7 (inj_lim mnf)
+        (PList (map enc_field acc)) s
+      = inj_out (inj_loop St d0)
+          (part_loop_x St rl 65536 fuel fuel0 ib limit length br mnf acc s).
+Proof. exact part_loop_eq. Qed.
+Print Assumptions C08_generated_part_loop_max_num_fields.
+
+Theorem C08_part_loop_x_is_part_loop :
+  forall (St : Type) (rl : Z -> St -> bytes * St) (maxline : Z)
+         (fuel fuel0 : nat) (ib : bytes) (limit : option Z) (length br : Z)
+         (acc : list field) (s : St),
+    forget_count
+      (part_loop_x St rl maxline fuel fuel0 ib limit length br None acc s)
+    = part_loop St rl maxline fuel fuel0 ib limit length br acc s.
+Proof. exact part_loop_x_none. Qed.
+Print Assumptions C08_part_loop_x_is_part_loop.
+
+(* read_multi of a parser without outer boundary (the top level of a
+   request): _skip_to_boundary, the part loop, skip_lines, `return _list`
+   = the model's read_multi, whenever the model finds the first delimiter
+   line within its fuel (the Python reads the first line outside its loop,
+   see C08_generated_skip_to_boundary_is_model) *)
+Theorem C08_generated_read_multi_is_model :
+  forall (St : Type) (rl : Z -> St -> bytes * St)
+         (PARSE : nat -> pv -> St -> res (pv * pv * pv * St))
+         (ib : bytes) (limit : option Z) (length : Z)
+         (enc errs kbv sp sep cb d0 : pv) (fuel : nat),
+    (forall hdrs plimit mnf s,
+        PARSE fuel
+          (PTuple [enc_hdrs hdrs; PBytes ib; kbv; sp; inj_lim plimit; enc;
+                   errs; inj_lim mnf; sep; cb]) s
+        = inj_out (inj_part St)
+            (parse_part St rl 65536 fuel hdrs ib plimit s)) ->
+    forall s : St,
+      skip_to_boundary St rl fuel (dashb ib) 0 s <> None ->
+      list_view St
+        (gen_read_multi St rl utf8_decode FPm PARSE (PBytes ib) s (PInt 0)
+           PNone enc errs (inj_lim limit) kbv sp sep cb (PInt length)
+           (PBytes []) d0 fuel)
+      = inj_out (inj_fields St)
+          (read_multi St rl 65536 fuel ib limit length s).
+Proof. exact gen_read_multi_is_model. Qed.
+Print Assumptions C08_generated_read_multi_is_model.
